@@ -175,6 +175,26 @@ def gen(rng, tier):
     for c in G.provider_layer_worlds(thorough):
         for mode in (False, True):
             cases.append(dict(c, kind="ev", check=mode, show=True))
+    # accessors that walk INTO a secret - plaintext form, ciphertext form (decryptable, undecryptable, not an envelope) -
+    # alone, inside an interpolation and as a built-in's argument: an error with an unknown value, the rest still evaluated
+    # (seeded change C07-n: a nil receiver after the transparent-secret step of evaluateExprAccess)
+    secs = [("sp", ("secret", "s3p")), ("sc", ("cipher", G.envelope_repr(b"ct-one"))),
+            ("sb", ("cipher", G.envelope_repr(b"!undecryptable"))), ("sn", ("cipher", "bm90IGFuIGVudmVsb3Bl"))]
+    for nm, _ in secs:
+        for acc in ([("name", "inner")], [("idx", 0)], [("key", "k q")], [("name", "a"), ("name", "b")]):
+            vals = list(secs) + [
+                ("bad", ("sym", [("name", nm)] + acc)),
+                ("i", G.norm_interp([("pre ", [("name", nm)] + acc), (" post", None)])),
+                ("j", ("join", ("str", ","), ("arr", [("str", "x"), ("sym", [("name", nm)] + acc)]))),
+                ("t", ("tojson", ("obj", [("k", ("sym", [("name", nm)] + acc))]))),
+                ("whole", ("sym", [("name", nm)])),
+                ("ok", ("str", "fine"))]
+            c = G.case_from_graph({"root": {"imports": [], "values": vals}}, "root")
+            c["provs"] = {}
+            c["sites"] = []
+            for mode in (False, True):
+                for show in (True, False):
+                    cases.append(dict(c, kind="ev", check=mode, show=show))
     for j, c in enumerate(G.flag_matrix_worlds()):
         for mode in (False, True):
             cases.append(dict(c, kind="ev", check=mode, show=True))
